@@ -1240,21 +1240,26 @@ def run_optional_ref_witness(ctx):
 
 
 def run(ctx):
-    run_witnesses(ctx)
-    run_optional_ref_witness(ctx)
-    run_exists(ctx, ctx.scale(40, 500))
-    run_joins(ctx, ctx.scale(40, 500))
-    run_subquery_nulls(ctx, ctx.scale(4, 40))
-    run_tuple_and_refset_witnesses(ctx)
-    run_string_index(ctx, ctx.scale(25, 300))
-    run_relational(ctx, ctx.scale(4, 40))
-    run_subquery_null_witness(ctx)
-    run_distinct(ctx, ctx.scale(3, 30))
-    run_arith_witnesses(ctx)
-    run_schema2(ctx, ctx.scale(5, 60))
-    run_projections(ctx, ctx.scale(60, 800))
-    run_fragment(ctx, 'frag', ctx.scale(240, 3000), 4)
-    run_fragment(ctx, 'ext', ctx.scale(150, 2000), 4)
+    import time
+    steps = [
+        ('witnesses', lambda: (run_witnesses(ctx), run_optional_ref_witness(ctx), run_tuple_and_refset_witnesses(ctx), run_subquery_null_witness(ctx), run_arith_witnesses(ctx))),
+        ('exists', lambda: run_exists(ctx, ctx.scale(40, 400))),
+        ('joins', lambda: run_joins(ctx, ctx.scale(40, 400))),
+        ('subquery-nulls', lambda: run_subquery_nulls(ctx, ctx.scale(4, 40))),
+        ('string-index', lambda: run_string_index(ctx, ctx.scale(25, 300))),
+        ('relational', lambda: run_relational(ctx, ctx.scale(4, 40))),
+        ('distinct', lambda: run_distinct(ctx, ctx.scale(3, 30))),
+        ('schema2', lambda: run_schema2(ctx, ctx.scale(5, 60))),
+        ('projections', lambda: run_projections(ctx, ctx.scale(60, 800))),
+        ('fragment', lambda: run_fragment(ctx, 'frag', ctx.scale(240, 3000), 4)),
+        ('extended', lambda: run_fragment(ctx, 'ext', ctx.scale(150, 2000), 4)),
+    ]
+    cpu = {}
+    for name, f in steps:
+        t0 = time.process_time(); w0 = time.time()
+        f()
+        cpu[name] = [round(time.process_time() - t0, 1), round(time.time() - w0, 1)]
+    ctx.extra['engine_seconds(cpu, wall) per stream'] = cpu
 
 
 def replay(ctx, data):
